@@ -5,5 +5,6 @@ CONSTANTS
   SepChoice = "basic"
   EmitMin = 1
   WithFinal = TRUE
+  AssertRef = FALSE
 INVARIANTS RefAgrees Tight
 CHECK_DEADLOCK FALSE
